@@ -117,7 +117,7 @@ def run_native(binary, cap, scripts, tr, strategy='RestartOnly', timeout=20, pre
     inp = to_input(cap, scripts, tr, strategy, pre)
     p = subprocess.run([binary], input=inp, capture_output=True, text=True, timeout=timeout)
     if p.returncode != 0:
-        return None, f"replayer exited {p.returncode}: {p.stderr[-500:]}"
+        return None, f"replayer exited {p.returncode}: {p.stderr[:400]} ... {p.stderr[-150:]}"
     return parse_output(p.stdout), None
 
 
